@@ -44,7 +44,7 @@ class Case:
     nontrivial  bool by the property's stated rule
     tags      list of branch/kind labels for the input-distribution histogram
     """
-    __slots__ = ("desc", "line", "impl", "key", "nontrivial", "tags", "origin")
+    __slots__ = ("desc", "line", "impl", "key", "nontrivial", "tags", "origin", "req", "impl_list", "unnamed")
 
     def __init__(self, desc, line, impl, key=None, nontrivial=True, tags=(), origin="gen"):
         self.desc, self.line, self.impl = desc, line, impl
@@ -85,6 +85,11 @@ class Prop:
     def finding_matchers(self):
         """{finding id: fn(case, verdict) -> bool}; narrow signatures of open findings"""
         return {}
+
+    def relabel(self, case, verdict):
+        """a case whose implementation outcome holds an exception the harness could not name from its MESSAGE, re-made
+        with the model's name for it where the exception TYPE is the one the model expects (None: nothing to do)"""
+        return None
 
     def extra_checks(self, tier, rng, report):
         """runtime-only checks (no model), may call report.runtime_failure(...)"""
@@ -172,16 +177,24 @@ def proof_part(prop, tier, rep):
             rep.broken_obligations.append(("leanchecker " + " ".join(prop.lean_targets), out[-800:]))
 
 
-def judge_cases(prop, cases, rep):
+def judge_cases(prop, cases, rep, relabel=True):
     """send cases to the driver, classify"""
     if not cases:
         return
     replies = L.run_driver([c.line for c in cases])
+    again = []
     for c, r in zip(cases, replies):
         try:
             v = prop.interpret(wire.dec(r), c)
         except Exception as ex:  # malformed reply = harness/driver bug
             raise L.LeanFailure(f"cannot interpret driver reply {r[:300]!r} for {json.dumps(c.desc)[:300]}: {ex}")
+        if relabel and (v.impl_spec is False or v.model != c.impl):
+            # an exception whose MESSAGE the harness does not recognise, of the TYPE the model expects here: the
+            # wording of a message is not part of the contract - the case is judged again under the model's label
+            c2 = prop.relabel(c, v)
+            if c2 is not None:
+                again.append(c2)
+                continue
         rep.count(c)
         if v.model_spec is False:
             rep.selftest_fail.append((c, v))
@@ -189,12 +202,19 @@ def judge_cases(prop, cases, rep):
             rep.failing.append((c, v))
         if v.model != c.impl:
             rep.disagreements.append((c, v))
+    judge_cases(prop, again, rep, relabel=False)
 
 
 def single_verdict(prop, desc):
     c = prop.case_from_desc(desc)
     r = L.run_driver([c.line])[0]
-    return c, prop.interpret(wire.dec(r), c)
+    v = prop.interpret(wire.dec(r), c)
+    if v.impl_spec is False or v.model != c.impl:
+        c2 = prop.relabel(c, v)
+        if c2 is not None:
+            c = c2
+            v = prop.interpret(wire.dec(L.run_driver([c.line])[0]), c)
+    return c, v
 
 
 def shrink(prop, case, verdict, pred, budget_s=20.0):
